@@ -2,7 +2,7 @@
 From Coq Require Import List NArith ZArith Bool String Lia.
 From PMS Require Import Base.PyStr Base.PyInt Base.Exn Model.Codec Model.Rules Model.TableTypes
   Gen.Tables Model.Validate Model.Hex Model.Ota Model.Oracles Model.Gateway Spec.SerialApi
-  Proofs.PyStrFacts Proofs.CodecProofs Proofs.ValidateProofs Proofs.GwLemmas.
+  Proofs.PyStrFacts Proofs.CodecProofs Proofs.ValidateProofs Proofs.GwLemmas Proofs.HexProofs Proofs.OtaProofs.
 Import ListNotations.
 Open Scope string_scope.
 Open Scope list_scope.
@@ -117,7 +117,7 @@ Section Inv.
 
   (* ---- route ---- *)
   Lemma route_ok g m : Inv g ->
-    Inv (fst (route orc g m)) /\ g_cf (fst (route orc g m)) = g_cf g.
+    Inv (fst (route g m)) /\ g_cf (fst (route g m)) = g_cf g.
   Proof.
     intro I. unfold route.
     destruct (m_type m =? vt_presentation (tab g)); [split; [exact I|reflexivity]|].
@@ -125,10 +125,643 @@ Section Inv.
     destruct ((m_type m =? vt_stream (tab g)) || negb (sleeping nd)); [split; [exact I|reflexivity]|].
     simpl fst. split; [|reflexivity].
     apply Inv_put_node; [exact I|].
-    pose proof (get_node_ok _ _ _ I G) as [K N]. split; simpl in *; assumption.
+    pose proof (get_node_ok _ _ _ I G) as [K N]. split; simpl in *; [reflexivity|exact N].
   Qed.
 
   Lemma route_opt_ok g r : Inv g ->
-    Inv (fst (route_opt orc g r)) /\ g_cf (fst (route_opt orc g r)) = g_cf g.
+    Inv (fst (route_opt g r)) /\ g_cf (fst (route_opt g r)) = g_cf g.
   Proof. destruct r; simpl; [apply route_ok|intro I; split; [exact I|reflexivity]]. Qed.
+
+  (* ---- is_sensor ---- *)
+  Definition facts (g : gw) : Prop := tab_facts (tab g) (cf_ge20 (g_cf g)) = true.
+
+  Lemma facts_of_cfg g : cfg_ok (g_cf g) -> facts g.
+  Proof. intros [v [T G]]. unfold facts, tab. rewrite T, G. apply tab_facts_all. Qed.
+
+  Ltac split_facts F :=
+    unfold facts, tab_facts in F;
+    repeat match type of F with _ && _ = true => apply andb_true_iff in F as [F ?] end.
+
+  Lemma member_some l n : has_member l n = true -> exists z, sassoc (s2p n) l = Some z.
+  Proof. unfold has_member. destruct (sassoc (s2p n) l) as [z|]; [exists z; reflexivity|discriminate]. Qed.
+
+  Lemma is_sensor_ok g sid cid : facts g -> Inv g ->
+    exists g1 b, is_sensor g sid cid = Ok (g1, b) /\ Inv g1 /\ g_cf g1 = g_cf g /\
+      (b = true -> g1 = g /\ exists nd, get_node g sid = Some nd /\
+                                      forall c, cid = Some c -> zhas c (n_children nd) = true).
+  Proof.
+    intros F I. unfold is_sensor.
+    set (ret := match get_node g sid with
+                | Some nd => match cid with Some c => zhas c (n_children nd) | None => true end
+                | None => false end).
+    destruct ret eqn:R.
+    - simpl. exists g. exists true. split; [reflexivity|]. split; [exact I|]. split; [reflexivity|].
+      intros _. split; [reflexivity|].
+      subst ret. destruct (get_node g sid) as [nd|]; [|discriminate R].
+      exists nd. split; [reflexivity|]. intros c ->. exact R.
+    - simpl. destruct (cf_ge20 (g_cf g)) eqn:GE.
+      + split_facts F. rewrite GE in F. simpl in F. apply member_some in F as [ip E]. rewrite E.
+        destruct (route g (mkMsg sid system_child_id (vt_internal (tab g)) 0 ip [])) as [g1 r] eqn:RT.
+        pose proof (route_ok g (mkMsg sid system_child_id (vt_internal (tab g)) 0 ip []) I) as [I1 C1].
+        rewrite RT in I1, C1. simpl in I1, C1.
+        destruct r as [m'|].
+        * exists (add_job_send g1 (encode m')). exists false. split; [reflexivity|].
+          split; [apply Inv_add_job; exact I1|]. split; [rewrite cf_add_job; exact C1|discriminate].
+        * exists g1. exists false. split; [reflexivity|]. split; [exact I1|]. split; [exact C1|discriminate].
+      + exists g. exists false. split; [reflexivity|]. split; [exact I|]. split; [reflexivity|discriminate].
+  Qed.
+
+  (* ---- messages decoded from a line copy faithfully ---- *)
+  Lemma copy_ok m r : wire_ok (m_payload m) = true -> copy m r = Ok (override m r).
+  Proof. apply copy_spec. Qed.
+
+  (* result of a handler: Ok, invariant kept, configuration untouched *)
+  Definition hres_ok (g : gw) (r : res (gw * option msg)) : Prop :=
+    exists g' rep, r = Ok (g', rep) /\ Inv g' /\ g_cf g' = g_cf g.
+
+  Lemma hres_intro g g' rep : Inv g' -> g_cf g' = g_cf g -> hres_ok g (Ok (g', rep)).
+  Proof. intros. exists g'. exists rep. auto. Qed.
+
+  Lemma node_ok_same t k nd nd' :
+    n_id nd' = n_id nd -> n_new nd' = n_new nd -> node_ok t (k, nd) -> node_ok t (n_id nd', nd').
+  Proof.
+    intros E1 E2 [K N]. simpl in *. split; simpl; [reflexivity|]. rewrite E1, E2. exact N.
+  Qed.
+
+  Lemma get_node_add_sensor g sid : exists nd, get_node (add_sensor g sid) sid = Some nd.
+  Proof.
+    unfold add_sensor. destruct (zhas sid (g_sensors g)) eqn:H.
+    - apply zhas_true in H. exact H.
+    - unfold get_node. simpl. rewrite zassoc_app.
+      unfold zhas in H. destruct (zassoc sid (g_sensors g)); [discriminate|].
+      simpl. rewrite Z.eqb_refl. eexists. reflexivity.
+  Qed.
+
+  Lemma Inv_add_sensor g sid : Inv g -> Inv (add_sensor g sid).
+  Proof.
+    intros [S O]. unfold add_sensor. destruct (zhas sid (g_sensors g)); [split; assumption|].
+    split; [|exact O]. simpl. apply Forall_app. split; [exact S|].
+    constructor; [|constructor]. split; simpl; [reflexivity|constructor].
+  Qed.
+
+  Lemma cf_add_sensor g sid : g_cf (add_sensor g sid) = g_cf g.
+  Proof. unfold add_sensor. destruct (zhas sid (g_sensors g)); reflexivity. Qed.
+
+  Lemma tab_cf g g' : g_cf g' = g_cf g -> tab g' = tab g.
+  Proof. unfold tab. intros ->. reflexivity. Qed.
+
+  (* put a node that keeps id and desired state *)
+  Lemma Inv_put_same g k nd nd' :
+    Inv g -> get_node g k = Some nd -> n_id nd' = n_id nd -> n_new nd' = n_new nd -> Inv (put_node g nd').
+  Proof.
+    intros I G E1 E2. apply Inv_put_node; [exact I|].
+    apply (node_ok_same _ k nd); try assumption. apply get_node_ok; assumption.
+  Qed.
+
+  Lemma handle_presentation_ok g m : facts g -> Inv g -> hres_ok g (handle_presentation orc g m).
+  Proof.
+    intros F I. unfold handle_presentation.
+    destruct (m_child m =? system_child_id).
+    - destruct (get_node_add_sensor g (m_node m)) as [nd G]. rewrite G.
+      apply hres_intro.
+      + apply Inv_alert. eapply Inv_put_same; [apply Inv_add_sensor; exact I|exact G|reflexivity|reflexivity].
+      + rewrite cf_alert. simpl. apply cf_add_sensor.
+    - destruct (is_sensor_ok g (m_node m) None F I) as (g1 & b & E & I1 & C1 & K). rewrite E. cbn [bind].
+      destruct b; cbn [negb].
+      + destruct (K eq_refl) as [-> [nd [G _]]]. rewrite G.
+        destruct (zhas (m_child m) (n_children nd)); [apply hres_intro; [exact I|reflexivity]|].
+        apply hres_intro; [|rewrite cf_alert; reflexivity].
+        apply Inv_alert. eapply Inv_put_same; [exact I|exact G|reflexivity|reflexivity].
+      + apply hres_intro; assumption.
+  Qed.
+
+  (* update_child_value keeps the id and only confirms (None) desired entries *)
+  Lemma update_child_value_ok t k nd c vt v :
+    node_ok t (k, nd) -> node_ok t (n_id (update_child_value nd c vt v), update_child_value nd c vt v).
+  Proof.
+    intros [K N]. simpl in *. unfold update_child_value.
+    destruct (zassoc c (n_children nd)) as [ch|]; [|split; simpl; [reflexivity|exact N]].
+    destruct (zassoc c (n_new nd)) as [dv|] eqn:D; [|split; simpl; [reflexivity|exact N]].
+    split; simpl; [reflexivity|].
+    apply Forall_zset; [exact N|]. simpl.
+    pose proof (zassoc_Forall _ _ _ _ N D) as DV. simpl in DV.
+    apply Forall_zset; [exact DV|]. simpl. exact Logic.I.
+  Qed.
+
+  Lemma internal_member_ok g n : has_member (vt_internal_members (tab g)) n = true ->
+    exists z, internal_member g n = Ok z.
+  Proof. intro H. apply member_some in H as [z E]. unfold internal_member. rewrite E. exists z. reflexivity. Qed.
+  Lemma stream_member_ok g n : has_member (vt_stream_members (tab g)) n = true ->
+    exists z, stream_member g n = Ok z.
+  Proof. intro H. apply member_some in H as [z E]. unfold stream_member. rewrite E. exists z. reflexivity. Qed.
+
+  Lemma handle_set_ok g m : facts g -> Inv g -> wire_ok (m_payload m) = true -> hres_ok g (handle_set g m).
+  Proof.
+    intros F I W. unfold handle_set.
+    destruct (is_sensor_ok g (m_node m) (Some (m_child m)) F I) as (g1 & b & E & I1 & C1 & K). rewrite E. cbn [bind].
+    destruct b; cbn [negb]; [|apply hres_intro; assumption].
+    destruct (K eq_refl) as [-> [nd [G _]]]. rewrite G.
+    assert (I2 : Inv (alert (put_node g (update_child_value nd (m_child m) (m_sub m) (m_payload m))) m)).
+    { apply Inv_alert. apply Inv_put_node; [exact I|].
+      apply (update_child_value_ok _ (m_node m)). apply get_node_ok; assumption. }
+    destruct (n_reboot (update_child_value nd (m_child m) (m_sub m) (m_payload m))).
+    - split_facts F.
+      match goal with H : has_member _ "I_REBOOT" = true |- _ => destruct (internal_member_ok g _ H) as [z Ez] end.
+      rewrite Ez. cbn [bind]. rewrite copy_ok by exact W. cbn [bind].
+      apply hres_intro; [exact I2|rewrite cf_alert; reflexivity].
+    - apply hres_intro; [exact I2|rewrite cf_alert; reflexivity].
+  Qed.
+
+  Lemma handle_req_ok g m : facts g -> Inv g -> wire_ok (m_payload m) = true -> hres_ok g (handle_req g m).
+  Proof.
+    intros F I W. unfold handle_req.
+    destruct (is_sensor_ok g (m_node m) (Some (m_child m)) F I) as (g1 & b & E & I1 & C1 & K). rewrite E. cbn [bind].
+    destruct b; cbn [negb]; [|apply hres_intro; assumption].
+    destruct (K eq_refl) as [-> [nd [G _]]]. rewrite G.
+    destruct (get_desired_value nd (m_child m) (m_sub m)); [|apply hres_intro; [exact I|reflexivity]].
+    rewrite copy_ok by exact W. cbn [bind]. apply hres_intro; [exact I|reflexivity].
+  Qed.
+
+  Lemma handle_id_request_ok g m : facts g -> Inv g -> wire_ok (m_payload m) = true -> hres_ok g (handle_id_request g m).
+  Proof.
+    intros F I W. unfold handle_id_request.
+    destruct (next_id g) as [nid|]; [|apply hres_intro; [exact I|reflexivity]].
+    destruct (zhas nid (g_sensors (add_sensor g nid))); cbn [negb];
+      [|apply hres_intro; [apply Inv_add_sensor; exact I|apply cf_add_sensor]].
+    split_facts F.
+    match goal with H : has_member _ "I_ID_RESPONSE" = true |- _ => destruct (internal_member_ok g _ H) as [z Ez] end.
+    rewrite Ez. cbn [bind]. rewrite copy_ok by exact W. cbn [bind].
+    apply hres_intro; [apply Inv_alert; apply Inv_add_sensor; exact I|rewrite cf_alert; apply cf_add_sensor].
+  Qed.
+
+  Lemma node_attr_ok f g m : facts g -> Inv g ->
+    (forall nd p, n_id (f nd p) = n_id nd /\ n_new (f nd p) = n_new nd) ->
+    hres_ok g (node_attr_handler f g m).
+  Proof.
+    intros F I Hf. unfold node_attr_handler.
+    destruct (is_sensor_ok g (m_node m) None F I) as (g1 & b & E & I1 & C1 & K). rewrite E. cbn [bind].
+    destruct b; cbn [negb]; [|apply hres_intro; assumption].
+    destruct (K eq_refl) as [-> [nd [G _]]]. rewrite G.
+    destruct (Hf nd (m_payload m)) as [H1 H2].
+    apply hres_intro; [|rewrite cf_alert; reflexivity].
+    apply Inv_alert. eapply Inv_put_same; eassumption.
+  Qed.
+
+  (* ---- wake-up flush ---- *)
+  Lemma create_set_message_valid g nid c vt v :
+    dvalid (tab g) nid c vt v ->
+    create_set_message orc g nid c (VtInt vt) v None None = Ok (mkMsg nid c (vt_set (tab g)) 0 vt (py_str v)).
+  Proof. intro D. unfold create_set_message. simpl. unfold gvalidate. unfold dvalid in D. rewrite D. reflexivity. Qed.
+
+  Lemma flush_values_pre_ok g nid c dv vals :
+    dv_ok (tab g) nid c dv -> snd (flush_values_pre orc g nid c dv vals) = None.
+  Proof.
+    intro D. induction vals as [|[vt x] r IH]; simpl; [reflexivity|].
+    destruct (zassoc vt dv) as [[v|]|] eqn:E; try exact IH.
+    pose proof (zassoc_Forall _ _ _ _ D E) as V. simpl in V.
+    rewrite (create_set_message_valid g nid c vt v V).
+    destruct (flush_values_pre orc g nid c dv r). simpl in *. exact IH.
+  Qed.
+
+  Lemma flush_children_pre_ok g nd chs :
+    Forall (fun cd => dv_ok (tab g) (n_id nd) (fst cd) (snd cd)) (n_new nd) ->
+    snd (flush_children_pre orc g nd chs) = None.
+  Proof.
+    intro N. induction chs as [|[k ch] r IH]; simpl; [reflexivity|].
+    destruct (zassoc (c_id ch) (n_new nd)) as [dv|] eqn:E; [|exact IH].
+    pose proof (zassoc_Forall _ _ _ _ N E) as D. simpl in D.
+    pose proof (flush_values_pre_ok g (n_id nd) (c_id ch) dv (c_values ch) D) as P.
+    destruct (flush_values_pre orc g (n_id nd) (c_id ch) dv (c_values ch)) as [a e]. simpl in P. subst e.
+    destruct (flush_children_pre orc g nd r). simpl in *. exact IH.
+  Qed.
+
+  Lemma init_smart_sleep_ok t k nd : node_ok t (k, nd) -> node_ok t (n_id (init_smart_sleep nd), init_smart_sleep nd).
+  Proof.
+    intros [K N]. simpl in *. split; simpl; [reflexivity|].
+    generalize (n_children nd). intro chs. revert N. generalize (n_new nd).
+    induction chs as [|[c ch] r IH]; intros nw N; simpl; [exact N|].
+    apply IH. destruct (zhas c nw); [exact N|].
+    apply Forall_app. split; [exact N|]. constructor; [|constructor]. simpl. constructor.
+  Qed.
+
+  Lemma handle_smartsleep_ok g k nd : Inv g -> get_node g k = Some nd ->
+    exists g2, handle_smartsleep orc g nd = Ok g2 /\ Inv g2 /\ g_cf g2 = g_cf g /\
+               exists nd2, get_node g2 k = Some nd2.
+  Proof.
+    intros I G. unfold handle_smartsleep.
+    pose proof (get_node_ok _ _ _ I G) as NK.
+    pose proof (init_smart_sleep_ok _ _ _ NK) as N1.
+    set (nd1 := init_smart_sleep nd) in *.
+    set (nd2 := with_queue nd1 []).
+    assert (N2 : node_ok (tab g) (n_id nd2, nd2)) by (destruct N1 as [A B]; split; simpl in *; assumption).
+    set (g1 := put_node g nd2).
+    assert (I1 : Inv g1) by (apply Inv_put_node; assumption).
+    set (g2 := fold_left add_job_send (n_queue nd1) g1).
+    assert (I2 : Inv g2) by (apply Inv_fold_add_job; exact I1).
+    assert (C2 : g_cf g2 = g_cf g).
+    { destruct (fold_add_job_send_frame (n_queue nd1) g1) as (_&_&C&_). exact C. }
+    assert (FP : snd (flush_children_pre orc g2 nd2 (n_children nd2)) = None).
+    { apply flush_children_pre_ok. rewrite (tab_cf _ _ C2). destruct N2 as [_ B]. exact B. }
+    destruct (flush_children_pre orc g2 nd2 (n_children nd2)) as [sets e]. simpl in FP. subst e.
+    exists (fold_left add_job_send sets g2). split; [reflexivity|]. split; [apply Inv_fold_add_job; exact I2|].
+    destruct (fold_add_job_send_frame sets g2) as (S3&_&C3&_). split; [congruence|].
+    destruct (fold_add_job_send_frame (n_queue nd1) g1) as (S2&_).
+    exists nd2. unfold get_node. rewrite S3. unfold g2. rewrite S2. unfold g1. simpl.
+    assert (E : n_id nd2 = k) by (destruct NK as [A _]; simpl in A; exact A).
+    change (zassoc k (zset (n_id nd2) nd2 (g_sensors g)) = Some nd2).
+    rewrite E. apply zassoc_zset_same.
+  Qed.
+
+  Lemma handle_heartbeat_ok g m : facts g -> Inv g -> hres_ok g (handle_heartbeat_response orc g m).
+  Proof.
+    intros F I. unfold handle_heartbeat_response.
+    destruct (is_sensor_ok g (m_node m) None F I) as (g1 & b & E & I1 & C1 & K). rewrite E. cbn [bind].
+    destruct b; cbn [negb]; [|apply hres_intro; assumption].
+    destruct (K eq_refl) as [-> [nd [G _]]]. rewrite G.
+    destruct (handle_smartsleep_ok g (m_node m) nd I G) as (g2 & E2 & I2 & C2 & nd2 & G2).
+    rewrite E2. cbn [bind]. rewrite G2.
+    apply hres_intro; [|rewrite cf_alert; exact C2].
+    apply Inv_alert. eapply Inv_put_same; [exact I2|exact G2|reflexivity|reflexivity].
+  Qed.
+
+  Lemma handle_pre_sleep_ok g m : facts g -> Inv g -> hres_ok g (handle_pre_sleep orc g m).
+  Proof.
+    intros F I. unfold handle_pre_sleep.
+    destruct (is_sensor_ok g (m_node m) None F I) as (g1 & b & E & I1 & C1 & K). rewrite E. cbn [bind].
+    destruct b; cbn [negb]; [|apply hres_intro; assumption].
+    destruct (K eq_refl) as [-> [nd [G _]]]. rewrite G.
+    destruct (handle_smartsleep_ok g (m_node m) nd I G) as (g2 & E2 & I2 & C2 & _).
+    rewrite E2. cbn [bind]. apply hres_intro; assumption.
+  Qed.
+
+  (* ---- OTA ---- *)
+  Lemma ota_get_fw_ok o nid first req :
+    ota_ok o ->
+    ota_ok (fst (ota_get_fw o nid first req)) /\
+    forall t v f, snd (ota_get_fw o nid first req) = Some (t, v, f) ->
+      word (fw_blocks f) /\ word (fw_crc f) /\
+      (match req with Some (rt, rv) => t = rt /\ v = rv | None => word t /\ word v end).
+  Proof.
+    intros (R & U & S & FW). unfold ota_get_fw.
+    set (s1 := if first then o_requested o else o_unstarted o).
+    set (s2 := if first then o_unstarted o else o_started o).
+    assert (S1 : store_ok s1) by (subst s1; destruct first; assumption).
+    assert (S2 : store_ok s2) by (subst s2; destruct first; assumption).
+    replace (if first then (o_requested o, o_unstarted o) else (o_unstarted o, o_started o)) with (s1, s2)
+      by (subst s1 s2; destruct first; reflexivity).
+    cbv beta iota.
+    assert (LK : forall t v f, fw_lookup t v (o_fw o) = Some f -> word (fw_blocks f) /\ word (fw_crc f)).
+    { intros t v f. induction (o_fw o) as [|[[t' v'] f'] l IH]; simpl; [discriminate|].
+      inversion FW; subst. destruct (Z.eqb t t' && Z.eqb v v'); [intro H; inversion H; subst; assumption|auto]. }
+    assert (CASE : forall id s1' s2', store_ok s1' -> store_ok s2' -> word (fst id) /\ word (snd id) ->
+      let o' := if first then mkOta (o_fw o) s1' s2' (o_started o) else mkOta (o_fw o) (o_requested o) s1' s2' in
+      let r := (let '(t, v) := match req with Some r => r | None => id end in
+                match fw_lookup t v (o_fw o) with Some f => (o', Some (t, v, f)) | None => (o', None) end) in
+      ota_ok (fst r) /\ forall t v f, snd r = Some (t, v, f) ->
+         word (fw_blocks f) /\ word (fw_crc f) /\
+         (match req with Some (rt, rv) => t = rt /\ v = rv | None => word t /\ word v end)).
+    { intros id s1' s2' A B W o' r.
+      assert (OK' : ota_ok o') by (subst o'; destruct first; repeat split; assumption).
+      subst r. destruct req as [[rt rv]|]; [|destruct id as [t0 v0]].
+      - destruct (fw_lookup rt rv (o_fw o)) as [f|] eqn:L; simpl; (split; [exact OK'|]); intros t v f' H;
+          [inversion H; subst; destruct (LK _ _ _ L); auto|discriminate].
+      - destruct (fw_lookup t0 v0 (o_fw o)) as [f|] eqn:L; simpl; (split; [exact OK'|]); intros t v f' H;
+          [inversion H; subst; destruct (LK _ _ _ L); simpl in W; tauto|discriminate]. }
+    destruct (zassoc nid s1) as [id|] eqn:E1.
+    - pose proof (zassoc_Forall _ _ _ _ S1 E1) as W. simpl in W.
+      apply CASE; [apply Forall_zdel; exact S1|apply Forall_zset; assumption|exact W].
+    - destruct (zassoc nid s2) as [id|] eqn:E2.
+      + pose proof (zassoc_Forall _ _ _ _ S2 E2) as W. simpl in W.
+        apply CASE; [exact S1|apply Forall_zset; [apply Forall_zdel; exact S2|exact W]|exact W].
+      + simpl. split; [repeat split; assumption|discriminate].
+  Qed.
+
+  Lemma Inv_set_ota g o : Inv g -> ota_ok o -> Inv (set_ota g o).
+  Proof. intros [S _] O. split; assumption. Qed.
+
+  Lemma words_ok_list ws : Forall word ws -> words_ok ws = true.
+  Proof. induction 1 as [|w r H _ IH]; [reflexivity|]. simpl. unfold word in H. rewrite H. exact IH. Qed.
+
+  Lemma respond_fw_config_ok g m : facts g -> Inv g -> wire_ok (m_payload m) = true ->
+    hres_ok g (respond_fw_config g m).
+  Proof.
+    intros F I W. unfold respond_fw_config.
+    destruct (fw_hex_to_int (m_payload m) 5); [|apply hres_intro; [exact I|reflexivity]].
+    destruct I as [S O].
+    destruct (ota_get_fw_ok (g_ota g) (m_node m) true None O) as [O' R].
+    destruct (ota_get_fw (g_ota g) (m_node m) true None) as [o' r]. simpl in O', R.
+    assert (I' : Inv (set_ota g o')) by (apply Inv_set_ota; [split; assumption|exact O']).
+    destruct r as [[[t v] f]|]; [|apply hres_intro; [exact I'|reflexivity]].
+    destruct (R t v f eq_refl) as (B & C & Wt & Wv).
+    split_facts F.
+    match goal with H : has_member _ "ST_FIRMWARE_CONFIG_RESPONSE" = true |- _ =>
+      destruct (stream_member_ok g _ H) as [z Ez] end.
+    rewrite Ez. cbn [bind]. rewrite copy_ok by exact W. cbn [bind].
+    unfold fw_config_payload. rewrite fw_int_to_hex_ok by (apply words_ok_list; repeat constructor; assumption).
+    cbn [bind]. apply hres_intro; [exact I'|reflexivity].
+  Qed.
+
+  Lemma respond_fw_ok g m : facts g -> Inv g -> wire_ok (m_payload m) = true -> hres_ok g (respond_fw g m).
+  Proof.
+    intros F I W. unfold respond_fw.
+    destruct (fw_hex_to_int (m_payload m) 3) as [ws|e] eqn:E; [|apply hres_intro; [exact I|reflexivity]].
+    destruct (fw_int_hex_roundtrip _ _ _ E) as (_ & _ & WS).
+    destruct ws as [|rt [|rv [|rb [|x y]]]]; try (apply hres_intro; [exact I|reflexivity]).
+    destruct I as [S O].
+    destruct (ota_get_fw_ok (g_ota g) (m_node m) false (Some (rt, rv)) O) as [O' R].
+    destruct (ota_get_fw (g_ota g) (m_node m) false (Some (rt, rv))) as [o' r]. simpl in O', R.
+    assert (I' : Inv (set_ota g o')) by (apply Inv_set_ota; [split; assumption|exact O']).
+    destruct r as [[[t v] f]|]; [|apply hres_intro; [exact I'|reflexivity]].
+    destruct (R t v f eq_refl) as (B & C & -> & ->).
+    split_facts F.
+    match goal with H : has_member _ "ST_FIRMWARE_RESPONSE" = true |- _ =>
+      destruct (stream_member_ok g _ H) as [z Ez] end.
+    rewrite Ez. cbn [bind]. rewrite copy_ok by exact W. cbn [bind].
+    unfold fw_response_payload. rewrite fw_int_to_hex_ok by exact WS.
+    cbn [bind]. apply hres_intro; [exact I'|reflexivity].
+  Qed.
+
+  Lemma handle_gateway_ready_20_ok g m : facts g -> Inv g -> wire_ok (m_payload m) = true ->
+    has_member (vt_internal_members (tab g)) "I_DISCOVER" = true -> hres_ok g (handle_gateway_ready_20 g m).
+  Proof.
+    intros F I W H. unfold handle_gateway_ready_20.
+    destruct (internal_member_ok g _ H) as [z Ez]. rewrite Ez. cbn [bind].
+    rewrite copy_ok by exact W. cbn [bind]. apply hres_intro; [apply Inv_alert; exact I|apply cf_alert].
+  Qed.
+
+  Lemma handle_discover_ok g m : facts g -> Inv g -> hres_ok g (handle_discover_response g m).
+  Proof.
+    intros F I. unfold handle_discover_response.
+    destruct (is_sensor_ok g (m_node m) None F I) as (g1 & b & E & I1 & C1 & _). rewrite E. cbn [bind].
+    apply hres_intro; assumption.
+  Qed.
+
+  Lemma run_leaf_ok h g m : facts g -> Inv g -> wire_ok (m_payload m) = true ->
+    In h (all_sub_handlers (tab g)) -> hres_ok g (run_leaf orc clock h g m).
+  Proof.
+    intros F I W IN.
+    assert (LO : leaf_ok h = true).
+    { pose proof F as F'. split_facts F'.
+      match goal with H : forallb leaf_ok _ = true |- _ => rewrite forallb_forall in H; apply H; exact IN end. }
+    destruct h; try discriminate LO; unfold run_leaf.
+    - apply respond_fw_config_ok; assumption.
+    - apply respond_fw_ok; assumption.
+    - apply handle_id_request_ok; assumption.
+    - unfold handle_config. rewrite copy_ok by exact W. cbn [bind]. apply hres_intro; [exact I|reflexivity].
+    - unfold handle_time. rewrite copy_ok by exact W. cbn [bind]. apply hres_intro; [exact I|reflexivity].
+    - apply node_attr_ok; [assumption|assumption|intros; split; reflexivity].
+    - apply node_attr_ok; [assumption|assumption|intros; split; reflexivity].
+    - apply node_attr_ok; [assumption|assumption|intros; split; reflexivity].
+    - apply hres_intro; [exact I|reflexivity].
+    - unfold handle_gateway_ready. apply hres_intro; [apply Inv_alert; exact I|apply cf_alert].
+    - apply handle_gateway_ready_20_ok; try assumption.
+      pose proof F as F'. split_facts F'.
+      assert (X : existsb is_gr20 (all_sub_handlers (tab g)) = true)
+        by (apply existsb_exists; exists HGatewayReady20; split; [exact IN|reflexivity]).
+      match goal with H : negb (existsb is_gr20 _) || _ = true |- _ =>
+        rewrite X in H; simpl in H; exact H end.
+    - apply handle_heartbeat_ok; assumption.
+    - apply handle_discover_ok; assumption.
+    - apply node_attr_ok; [assumption|assumption|intros; split; reflexivity].
+    - apply handle_pre_sleep_ok; assumption.
+  Qed.
+
+  Lemma handle_internal_ok g m : facts g -> Inv g -> wire_ok (m_payload m) = true ->
+    hres_ok g (handle_internal orc clock g m).
+  Proof.
+    intros F I W. unfold handle_internal.
+    destruct (sub_handler (tab g) (m_type m) (m_sub m)) as [h|] eqn:E; [|apply hres_intro; [exact I|reflexivity]].
+    apply run_leaf_ok; try assumption. eapply sub_handler_in. exact E.
+  Qed.
+
+  Lemma handle_stream_ok g m : facts g -> Inv g -> wire_ok (m_payload m) = true ->
+    hres_ok g (handle_stream orc clock g m).
+  Proof.
+    intros F I W. unfold handle_stream.
+    destruct (is_sensor_ok g (m_node m) None F I) as (g1 & b & E & I1 & C1 & K). rewrite E. cbn [bind].
+    destruct b; cbn [negb]; [|apply hres_intro; assumption].
+    destruct (K eq_refl) as [-> _].
+    destruct (sub_handler (tab g) (m_type m) (m_sub m)) as [h|] eqn:E2; [|apply hres_intro; [exact I|reflexivity]].
+    destruct (run_leaf_ok h g m F I W (sub_handler_in _ _ _ _ E2)) as (g2 & rep & E3 & I2 & C2).
+    rewrite E3. cbn [bind]. apply hres_intro; [apply Inv_alert; exact I2|rewrite cf_alert; exact C2].
+  Qed.
+
+  (* ---- the dispatcher ---- *)
+  Lemma validated_type_range g m : cfg_ok (g_cf g) -> gvalidate orc g m = true -> between 0 4 (m_type m) = true.
+  Proof.
+    intros [v [T _]] V. unfold gvalidate, tab in V. rewrite T in V.
+    rewrite validate_conforms in V. unfold spec_accepts in V.
+    repeat match type of V with _ && _ = true => apply andb_true_iff in V as [V ?] end. assumption.
+  Qed.
+
+  Lemma type_handler_cases g ty : facts g -> between 0 4 ty = true ->
+    (ty = 0 /\ type_handler (tab g) ty = Some HPresentation) \/ (ty = 1 /\ type_handler (tab g) ty = Some HSet) \/
+    (ty = 2 /\ type_handler (tab g) ty = Some HReq) \/ (ty = 3 /\ type_handler (tab g) ty = Some HInternal) \/
+    (ty = 4 /\ type_handler (tab g) ty = Some HStream).
+  Proof.
+    intros F B. split_facts F.
+    match goal with H : match type_handler _ 0 with _ => _ end = true |- _ => rename H into TH end.
+    destruct (type_handler (tab g) 0) as [[]|] eqn:E0; try discriminate TH.
+    destruct (type_handler (tab g) 1) as [[]|] eqn:E1; try discriminate TH.
+    destruct (type_handler (tab g) 2) as [[]|] eqn:E2; try discriminate TH.
+    destruct (type_handler (tab g) 3) as [[]|] eqn:E3; try discriminate TH.
+    destruct (type_handler (tab g) 4) as [[]|] eqn:E4; try discriminate TH.
+    unfold between in B.
+    assert (C : ty = 0 \/ ty = 1 \/ ty = 2 \/ ty = 3 \/ ty = 4) by lia.
+    destruct C as [->|[->|[->|[->| ->]]]]; tauto.
+  Qed.
+
+  Theorem logic_total g l : cfg_ok (g_cf g) -> Inv g ->
+    exists g' r, logic orc clock g l = Ok (g', r) /\ Inv g' /\ g_cf g' = g_cf g.
+  Proof.
+    intros C I. pose proof (facts_of_cfg g C) as F. unfold logic.
+    destruct (decode l) as [m|] eqn:D; [|exists g; exists None; auto].
+    pose proof (decoded_payload_wire_ok _ _ D) as W.
+    destruct (gvalidate orc g m) eqn:V; cbn [negb]; [|exists g; exists None; auto].
+    pose proof (validated_type_range g m C V) as B.
+    assert (H : exists h, type_handler (tab g) (m_type m) = Some h /\ hres_ok g (run_handler orc clock h g m)).
+    { destruct (type_handler_cases g (m_type m) F B) as [[_ E]|[[_ E]|[[_ E]|[[_ E]|[_ E]]]]];
+        eexists; (split; [exact E|]); unfold run_handler.
+      - apply handle_presentation_ok; assumption.
+      - apply handle_set_ok; assumption.
+      - apply handle_req_ok; assumption.
+      - apply handle_internal_ok; assumption.
+      - apply handle_stream_ok; assumption. }
+    destruct H as (h & E & g1 & rep & E1 & I1 & C1). rewrite E, E1. cbn [bind].
+    pose proof (route_opt_ok g1 rep I1) as [I2 C2].
+    destruct (route_opt g1 rep) as [g2 routed]. simpl in I2, C2.
+    exists g2. eexists. split; [reflexivity|]. split; [exact I2|congruence].
+  Qed.
+
+  (* a rejected line has no effect at all *)
+  Theorem rejected_is_noop g l :
+    (decode l = None \/ exists m, decode l = Some m /\ gvalidate orc g m = false) ->
+    logic orc clock g l = Ok (g, None).
+  Proof.
+    intros [D|[m [D V]]]; unfold logic; rewrite D; [reflexivity|]. rewrite V. reflexivity.
+  Qed.
+
+  (* ---- controller calls ---- *)
+  Lemma set_child_value_ok g sid cid vt v mt a : facts g -> Inv g ->
+    match set_child_value orc g sid cid vt v mt a with
+    | Ok g' => Inv g' /\ g_cf g' = g_cf g
+    | Raise _ => True
+    end.
+  Proof.
+    intros F I. unfold set_child_value.
+    destruct (is_sensor_ok g sid (Some cid) F I) as (g1 & b & E & I1 & C1 & K). rewrite E. cbn [bind].
+    destruct b; cbn [negb]; [|split; assumption].
+    destruct (K eq_refl) as [-> [nd [G _]]]. rewrite G.
+    destruct (sleeping nd).
+    - destruct (create_set_message orc g (n_id nd) cid vt v None None) as [m0|e] eqn:CM; cbn [bind]; [|exact Logic.I].
+      destruct (zassoc cid (n_new nd)) as [dv|] eqn:D; [|exact Logic.I].
+      destruct (validate_child_state orc nd cid vt v); cbn [bind]; [|exact Logic.I].
+      unfold create_set_message in CM.
+      destruct (vt_int vt) as [vti|]; [|exact Logic.I].
+      simpl in CM. destruct (gvalidate orc g (mkMsg (n_id nd) cid (vt_set (tab g)) 0 vti (py_str v))) eqn:V; [|discriminate].
+      split; [|reflexivity]. apply Inv_put_node; [exact I|].
+      pose proof (get_node_ok _ _ _ I G) as [KK N]. simpl in KK, N.
+      split; simpl; [reflexivity|].
+      apply Forall_zset; [exact N|]. simpl.
+      pose proof (zassoc_Forall _ _ _ _ N D) as DV. simpl in DV.
+      apply Forall_zset; [exact DV|]. simpl. exact V.
+    - destruct (create_set_message orc g (n_id nd) cid vt v mt a); cbn [bind]; [|exact Logic.I].
+      split; [apply Inv_add_job; exact I|apply cf_add_job].
+  Qed.
+
+  (* firmware images the update call may be given: bytes, and a block count that fits 16 bits *)
+  Definition image_ok (bin : option (list N)) : Prop :=
+    match bin with
+    | Some b => bytes_ok b = true /\ word (fw_blocks (prepare_fw b))
+    | None => True
+    end.
+
+  Lemma fw_store_ok t v f l : fws_ok l -> word (fw_blocks f) /\ word (fw_crc f) -> fws_ok (fw_store t v f l).
+  Proof.
+    intros FW W. induction l as [|[[t' v'] f'] l IH]; simpl; [constructor; [exact W|constructor]|].
+    inversion FW; subst. destruct (Z.eqb t t' && Z.eqb v v'); constructor; try assumption.
+    apply IH. assumption.
+  Qed.
+
+  Definition update_one (t v : Z) (g : gw) (nid : Z) : gw :=
+    match get_node g nid with
+    | None => g
+    | Some nd =>
+        let o := g_ota g in
+        put_node (set_ota g (mkOta (o_fw o) (zset nid (t, v) (o_requested o))
+                                   (zdel nid (o_unstarted o)) (zdel nid (o_started o))))
+                 (with_reboot nd true)
+    end.
+
+  Lemma update_one_ok t v g nid : word t -> word v -> Inv g ->
+    Inv (update_one t v g nid) /\ g_cf (update_one t v g nid) = g_cf g.
+  Proof.
+    intros Wt Wv I. unfold update_one. destruct (get_node g nid) as [nd|] eqn:G; [|split; [exact I|reflexivity]].
+    split; [|reflexivity].
+    eapply Inv_put_same; [|exact G|reflexivity|reflexivity].
+    destruct I as [S (R&U&ST&FW)]. split; [exact S|].
+    repeat split; simpl; try assumption.
+    - apply Forall_zset; [exact R|split; assumption].
+    - apply Forall_zdel; exact U.
+    - apply Forall_zdel; exact ST.
+  Qed.
+
+  Lemma update_fold_ok t v nids g : word t -> word v -> Inv g ->
+    Inv (fold_left (update_one t v) nids g) /\ g_cf (fold_left (update_one t v) nids g) = g_cf g.
+  Proof.
+    intros Wt Wv. revert g. induction nids as [|nid r IH]; intros g I; simpl; [split; [exact I|reflexivity]|].
+    destruct (update_one_ok t v g nid Wt Wv I) as [I1 C1].
+    destruct (IH _ I1) as [I2 C2]. split; [exact I2|congruence].
+  Qed.
+
+  Lemma update_fw_ok g nids fwt fwv bin : Inv g -> image_ok bin ->
+    match update_fw g nids fwt fwv bin with
+    | Ok g' => Inv g' /\ g_cf g' = g_cf g
+    | Raise _ => True
+    end.
+  Proof.
+    intros I IM. unfold update_fw.
+    destruct bin as [[|b0 br]|] eqn:EB; [split; [exact I|reflexivity]| |].
+    all: destruct (vt_int fwt) as [t|]; [|split; [exact I|reflexivity]];
+         destruct (vt_int fwv) as [v|]; [|split; [exact I|reflexivity]];
+         destruct (negb ((0 <=? t) && (t <=? 65535)) || negb ((0 <=? v) && (v <=? 65535))) eqn:RG;
+         [split; [exact I|reflexivity]|].
+    all: apply orb_false_iff in RG as [R1 R2]; apply negb_false_iff in R1, R2;
+         assert (Wt : word t) by exact R1; assert (Wv : word v) by exact R2.
+    all: match goal with |- context [fw_lookup _ _ ?fwl] => set (FWL := fwl) end.
+    all: assert (FO : fws_ok FWL).
+    1: { subst FWL. destruct I as [_ (_&_&_&FW)]. apply fw_store_ok; [exact FW|].
+         destruct IM as [BO BL]. split; [exact BL|]. rewrite prepare_fw_crc. apply crc16_range.
+         apply prepare_fw_bytes. exact BO. }
+    2: { subst FWL. destruct I as [_ (_&_&_&FW)]. exact FW. }
+    all: set (g0 := set_ota g (mkOta FWL (o_requested (g_ota g)) (o_unstarted (g_ota g)) (o_started (g_ota g))));
+         assert (I0 : Inv g0) by (destruct I as [S (R&U&ST&_)]; split; [exact S|repeat split; assumption]);
+         assert (C0 : g_cf g0 = g_cf g) by reflexivity;
+         destruct (fw_lookup t v FWL); [|split; assumption].
+    all: destruct (update_fold_ok t v nids g0 Wt Wv I0) as [I1 C1];
+         change (Inv (fold_left (update_one t v) nids g0) /\ g_cf (fold_left (update_one t v) nids g0) = g_cf g);
+         split; [exact I1|congruence].
+  Qed.
+
+  (* ---- steps and reachable states ---- *)
+  Definition op_ok (o : op) : Prop :=
+    match o with UpdateFw _ _ _ bin => image_ok bin | _ => True end.
+
+  Lemma recv_ok g l : cfg_ok (g_cf g) -> Inv g -> Inv (recv orc clock g l) /\ g_cf (recv orc clock g l) = g_cf g.
+  Proof.
+    intros C I. unfold recv. destruct (cf_async (g_cf g)); [|split; [apply Inv_set_jobs; exact I|reflexivity]].
+    destruct (logic_total g l C I) as (g1 & r & E & I1 & C1). rewrite E.
+    destruct r; [split; [apply Inv_send; exact I1|rewrite cf_send; exact C1]|split; assumption].
+  Qed.
+
+  Lemma pump_ok g : cfg_ok (g_cf g) -> Inv g -> Inv (pump orc clock g) /\ g_cf (pump orc clock g) = g_cf g.
+  Proof.
+    intros C I. unfold pump. destruct (g_jobs g) as [|[l|l] r]; [split; [exact I|reflexivity]| |].
+    - assert (I0 : Inv (set_jobs g r)) by (apply Inv_set_jobs; exact I).
+      destruct (logic_total (set_jobs g r) l C I0) as (g1 & rep & E & I1 & C1). rewrite E.
+      destruct rep; [split; [apply Inv_send; exact I1|rewrite cf_send; exact C1]|split; assumption].
+    - split; [apply Inv_send; apply Inv_set_jobs; exact I|rewrite cf_send; reflexivity].
+  Qed.
+
+  Lemma step_ok g o : cfg_ok (g_cf g) -> Inv g -> op_ok o ->
+    Inv (step orc clock g o) /\ g_cf (step orc clock g o) = g_cf g.
+  Proof.
+    intros C I O. destruct o as [l| |s c vt v mt a|ns t v b|b]; simpl.
+    - apply recv_ok; assumption.
+    - apply pump_ok; assumption.
+    - pose proof (set_child_value_ok g s c vt v mt a (facts_of_cfg g C) I) as H.
+      destruct (set_child_value orc g s c vt v mt a); [exact H|split; [apply Inv_emit; exact I|reflexivity]].
+    - pose proof (update_fw_ok g ns t v b I O) as H.
+      destruct (update_fw g ns t v b); [exact H|split; [apply Inv_emit; exact I|reflexivity]].
+    - split; [|reflexivity]. revert I. apply Inv_ext; reflexivity.
+  Qed.
+
+  Lemma Inv_init cf : Inv (gw_init cf).
+  Proof. split; [constructor|repeat split; constructor]. Qed.
+
+  Lemma run_ok ops g : cfg_ok (g_cf g) -> Inv g -> Forall op_ok ops ->
+    Inv (run orc clock g ops) /\ g_cf (run orc clock g ops) = g_cf g.
+  Proof.
+    revert g. induction ops as [|o ops IH]; intros g C I F; [split; [exact I|reflexivity]|].
+    inversion F; subst. destruct (step_ok g o C I) as [I1 C1]; [assumption|].
+    unfold run. simpl. destruct (IH (step orc clock g o)) as [I2 C2]; try assumption; [rewrite C1; exact C|].
+    split; [exact I2|unfold run in C2; congruence].
+  Qed.
+
+  (* C01: in every reachable state the dispatcher processes every next line, and every
+     queued line, without raising *)
+  Theorem pump_total cf ops l : cfg_ok cf -> Forall op_ok ops ->
+    let g := run orc clock (gw_init cf) ops in
+    (exists g' r, logic orc clock g l = Ok (g', r)) /\
+    (forall l' rest, g_jobs g = JLogic l' :: rest ->
+       exists g' r, logic orc clock (set_jobs g rest) l' = Ok (g', r)).
+  Proof.
+    intros C F g. destruct (run_ok ops (gw_init cf) C (Inv_init cf) F) as [I CF]. fold g in I, CF.
+    assert (Cg : cfg_ok (g_cf g)) by (rewrite CF; exact C).
+    split.
+    - destruct (logic_total g l Cg I) as (g' & r & E & _). exists g'. exists r. exact E.
+    - intros l' rest J.
+      destruct (logic_total (set_jobs g rest) l' Cg (Inv_set_jobs g rest I)) as (g' & r & E & _).
+      exists g'. exists r. exact E.
+  Qed.
 End Inv.
